@@ -5,7 +5,7 @@ import copy
 import re
 
 from ..fold import NotConst, Regex
-from ..model import AnalysisError, U, walk_no_nested, parent, clone
+from ..model import npos, AnalysisError, U, walk_no_nested, parent, clone
 from ..tables import sre_parse, sre_c, shape_of
 from .tablerules import tables_of, PLACEHOLDER
 
@@ -186,18 +186,18 @@ def r26_sign_prop(ctx):
     for n in walk_no_nested(f.node):
         if isinstance(n, ast.AugAssign) and U(n.target) == yv:
             if isinstance(n.op, ast.Mult) and U(n.value) in ("-1", "(-1)"):
-                events.append((n.lineno, "negate", n))
+                events.append((npos(n), "negate", n))
             else:
-                events.append((n.lineno, "accumulate", n))
+                events.append((npos(n), "accumulate", n))
         elif isinstance(n, ast.Assign) and U(n.targets[0]) == yv:
             if isinstance(n.value, ast.UnaryOp) and U(n.value.operand) == \
                     yv:
-                events.append((n.lineno, "negate", n))
+                events.append((npos(n), "negate", n))
             else:
-                events.append((n.lineno, "init", n))
+                events.append((npos(n), "init", n))
         elif isinstance(n, ast.Assign) and "['year']" in U(
                 n.targets[0]) and U(n.value) == yv:
-            events.append((n.lineno, "store", n))
+            events.append((npos(n), "store", n))
     events.sort(key=lambda e: e[0])
     kinds = [k for _, k, _ in events]
     ok = kinds.count("negate") == 1 and kinds.count("store") == 1 and \
